@@ -132,6 +132,18 @@ def _nf(f):
     return g
 
 
+def _nf_expr(idx, f):
+    """_nf, with one-expression private helpers of the module read as the expression they return (`_overlaps_any_leaf(box, root, nodes, aabbs)` is
+    `len(query_overlap(box, root, nodes, aabbs, break_at_first_leaf=True)) >= 1` again)"""
+    import copy
+    from ..core.inline import expand_helpers
+    g = copy.copy(f)
+    node = expand_helpers(idx, f.module, copy.deepcopy(f.node), depth=2, only=lambda c: getattr(c, "module", None) is f.module and c.name.startswith("_"))
+    ast.fix_missing_locations(node)
+    g.node = deref_access_temps(node)
+    return g
+
+
 def _nf_open(idx, f):
     """_nf, with the private single-exit helpers of the module opened first (a descent loop moved into `_find_sibling` is insert_leaf's loop again)"""
     import copy
@@ -291,7 +303,7 @@ def _r_traverse(idx, rep):
                    "exactly once, applies no other filter; query_overlap_of_other_tree does the same over tree 2 and "
                    "queries tree 1 completely for its leaves", floor=8)
     C = _consts(idx)
-    f = _nf(idx.func(MOD + "::query_overlap"))
+    f = _nf_expr(idx, idx.func(MOD + "::query_overlap"))
     fk = MOD + "::query_overlap"
     params = f.params()
     if len(params) < 4:
@@ -437,7 +449,7 @@ def _r_traverse(idx, rep):
                   "break_at_first_leaf no longer defaults to False: complete queries would stop at the first leaf")
 
     # ---- tree against tree
-    g = _nf(idx.func(MOD + "::query_overlap_of_other_tree"))
+    g = _nf_expr(idx, idx.func(MOD + "::query_overlap_of_other_tree"))
     gk = MOD + "::query_overlap_of_other_tree"
     gp = g.params()
     if len(gp) != 6:
@@ -778,6 +790,15 @@ def r_links(idx, rep):
                 el = index_elts(st_.targets[0])
                 if len(el) == 2 and isinstance(const(el[0], C), int) and isinstance(const(el[1], C), int):
                     entries[(const(el[0], C), const(el[1], C))] = st_.value
+    # named entries (`x_min, x_max = min(..), max(..)` ... `np.array([[x_min, x_max], ...])`) are read through their definitions
+    from ..core.astutil import inline_temps_in as _inl
+    _mfn = ast.FunctionDef(name="_", args=m.node.args, body=list(mbody), decorator_list=[], lineno=m.node.lineno, col_offset=0)
+    for kc_, e_ in list(entries.items()):
+        if isinstance(e_, ast.Name):
+            r_ = _inl(_mfn, e_)
+            if r_ is not None and not isinstance(r_, ast.Name):
+                ast.copy_location(r_, e_)
+                entries[kc_] = r_
     if set(entries) != {(k, c) for k in range(3) for c in range(2)}:
         raise AnalysisError("_merge_aabb: the six entries of the merged box are not derivable (neither a literal 3x2 array nor element stores)")
 
@@ -1214,8 +1235,21 @@ def _num_eval(e, env):
         cn = (call_name(e) or "")
         short = cn.split(".")[-1]
         args = [_num_eval(a, env) for a in e.args]
-        if short == "array" and len(args) == 1:
+        if short in ("array", "asarray", "asanyarray", "ascontiguousarray", "copy", "float", "atleast_2d") and len(args) == 1:
             return args[0]
+        if short == "sign" and len(args) == 1:
+            return _elementwise(lambda x, _y: (x > 0) - (x < 0), args[0], 0, e)
+        if short in ("logical_and", "logical_or") and len(args) == 2:
+            return _elementwise((lambda x, y: bool(x) and bool(y)) if short == "logical_and" else (lambda x, y: bool(x) or bool(y)), args[0], args[1], e)
+        if short == "logical_not" and len(args) == 1:
+            return _elementwise(lambda x, _y: not x, args[0], 0, e)
+        if short == "where" and len(args) == 3:
+            c_ = args[0]
+            if isinstance(c_, list):
+                a_ = args[1] if isinstance(args[1], list) else [args[1]] * len(c_)
+                b_ = args[2] if isinstance(args[2], list) else [args[2]] * len(c_)
+                return [x if k else y for k, x, y in zip(c_, a_, b_)]
+            return args[1] if c_ else args[2]
         if short in ("max", "maximum", "fmax") and len(args) == 2 and not any(isinstance(a, list) for a in args):
             return max(args)
         if short in ("min", "minimum", "fmin") and len(args) == 2 and not any(isinstance(a, list) for a in args):
@@ -1236,7 +1270,8 @@ def _num_eval(e, env):
     if isinstance(e, ast.BinOp):
         a, b = _num_eval(e.left, env), _num_eval(e.right, env)
         if isinstance(a, list) or isinstance(b, list):
-            fn = {ast.Add: lambda x, y: x + y, ast.Sub: lambda x, y: x - y, ast.Mult: lambda x, y: x * y}.get(type(e.op))
+            fn = {ast.Add: lambda x, y: x + y, ast.Sub: lambda x, y: x - y, ast.Mult: lambda x, y: x * y,
+                  ast.BitAnd: lambda x, y: bool(x) and bool(y), ast.BitOr: lambda x, y: bool(x) or bool(y)}.get(type(e.op))
             if fn is None:
                 raise _NotModelled("array arithmetic `%s`" % u(e)[:50])
             return _elementwise(fn, a, b, e)
@@ -1253,8 +1288,10 @@ def _num_eval(e, env):
             if isinstance(v, list):
                 raise _NotModelled("truth value of an array `%s`" % u(e)[:50])
             return not v
-        if isinstance(e.op, ast.USub) and not isinstance(v, list):
-            return -v
+        if isinstance(e.op, ast.USub):
+            return _elementwise(lambda x, _y: -x, v, 0, e) if isinstance(v, list) else -v
+        if isinstance(e.op, ast.Invert) and isinstance(v, list):
+            return _elementwise(lambda x, _y: not x, v, 0, e)
         raise _NotModelled("operator in `%s`" % u(e)[:50])
     if isinstance(e, ast.BoolOp):
         vals = [_num_eval(v, env) for v in e.values]
@@ -1416,3 +1453,66 @@ def r_prefilter(idx, rep, f, fk, loop, stackname, boxes, sentinels, rule="R-TRAV
                   "count) — that condition holds, so overlapping leaves are never reported; only a condition that implies `not aabb_overlap(...)` may skip the traversal"
                   % (what, cond_txt, witness[0] if witness else "", witness[1] if witness else ""),
                   "pre-filter `%s` implies non-overlap on all %d grid configurations" % (cond_txt[:60], 3 * 100 * 25))
+
+
+
+# ---------------------------------------------------------------------------------------------------------------------------------
+# R-BRUTEFORCE: the brute-force broad phase (all_aabbs_overlap) is the reference the tree queries are interchangeable with: it tests EVERY pair (i, j) of the two
+# box lists with aabb_overlap(first[i], second[j]) and records i, j and (i, j) for a hit.  Index space enumerated for 0 .. 3 boxes on either side.
+def r_bruteforce(idx, rep, rule="R-BRUTEFORCE"):
+    from ..core.indexspace import enumerate_function, NotEnumerable
+    rep.rule(rule, "all_aabbs_overlap applies aabb_overlap(aabbs1[i], aabbs2[j]) to every pair (i, j) and appends i, j and (i, j) to its three result lists — index "
+                   "space of the loop nest enumerated for 0 .. 3 boxes on each side", floor=2)
+    f = idx.func(MOD + "::all_aabbs_overlap")
+    a1, a2 = f.params()[:2]
+    key1 = f.key + "|every pair is tested, first list against second"
+    key2 = f.key + "|a hit records i, j and (i, j)"
+    bad1 = bad2 = None
+    rets = [s_ for s_ in iter_stmts(f.node.body) if isinstance(s_, ast.Return) and isinstance(s_.value, ast.Tuple) and len(s_.value.elts) == 3]
+    try:
+        for n1 in range(4):
+            for n2 in range(4):
+                ev = enumerate_function(idx, f, {a1: n1, a2: n2})
+                tests = [rows for kind, name, rows in ev if kind == "call" and name == "aabb_overlap"]
+                want = {((a1, i), (a2, j)) for i in range(n1) for j in range(n2)}
+                got = {tuple(r) for r in tests}
+                if bad1 is None and got != want and {tuple(reversed(r)) for r in got} != want:
+                    miss = sorted(want - got)[:3]
+                    bad1 = "with %d and %d boxes the pairs %s are never tested%s" % (n1, n2, [(x[0][1], x[1][1]) for x in miss], "" if not (got - want) else
+                                                                                      "; tested instead: %s" % sorted(got - want)[:3])
+                app = {}
+                for kind, name, val in ev:
+                    if kind == "append":
+                        app.setdefault(name, []).append(val)
+                lists = sorted(app)
+                wi, wj, wp = [i for i in range(n1) for j in range(n2)], [j for i in range(n1) for j in range(n2)], [(i, j) for i in range(n1) for j in range(n2)]
+                if bad2 is None and n1 and n2:
+                    vals = sorted(map(repr, app.values()))
+                    if sorted(map(repr, (wi, wj, wp))) != vals:
+                        bad2 = "with %d and %d boxes, assuming every test is a hit, the result lists receive %s; they must receive the first indices %s, the second indices %s and the pairs %s" % (
+                            n1, n2, {k: v[:6] for k, v in app.items()}, wi[:6], wj[:6], wp[:6])
+    except NotEnumerable as ex:
+        rep.unknown(rule, key1, f.where, "index space not enumerable: %s" % ex)
+        rep.unknown(rule, key2, f.where, "index space not enumerable: %s" % ex)
+        return
+    rep.check(bad1 is None, rule, key1, f.where, bad1 or "", "all n1 x n2 pairs")
+    rep.check(bad2 is None, rule, key2, f.where, bad2 or "", "i, j, (i, j)")
+    # which list is returned where: (indices of the first, indices of the second, pairs)
+    if rets and bad2 is None:
+        ev = enumerate_function(idx, f, {a1: 2, a2: 3})
+        app = {}
+        for kind, name, val in ev:
+            if kind == "append":
+                app.setdefault(name, []).append(val)
+        role = {}
+        for name, vals in app.items():
+            role[name] = "first" if vals == [i for i in range(2) for j in range(3)] else ("second" if vals == [j for i in range(2) for j in range(3)] else "pairs")
+        got = []
+        for e in rets[-1].value.elts:
+            src = {n_.id for n_ in ast.walk(resolved(f.node, e)) if isinstance(n_, ast.Name)} | {n_.id for n_ in ast.walk(e) if isinstance(n_, ast.Name)}
+            # follow one more definition level (np.unique(np.array(indices1)))
+            src |= {n2_.id for n_ in list(src) for d_ in [resolved(f.node, ast.Name(id=n_, ctx=ast.Load()))] for n2_ in ast.walk(d_) if isinstance(n2_, ast.Name)}
+            roles = sorted({role[n_] for n_ in src if n_ in role})
+            got.append(roles[0] if len(roles) == 1 else "?")
+        rep.check(got == ["first", "second", "pairs"], rule, f.key + "|return order (first indices, second indices, pairs)", "%s:%d" % (f.module.relpath, rets[-1].lineno),
+                  "all_aabbs_overlap returns its lists in the order %s; callers unpack (indices of the first list, indices of the second list, pairs)" % got, "first, second, pairs")
